@@ -1044,6 +1044,31 @@ static int vnadata_save_common(vnadata_t *vdp, FILE *fp, const char *filename,
     }
 
     /*
+     * Go through the format vector and fix up any instances of "ri",
+     * "ma" and "db" without parameter types, taking the parameter type
+     * from the vnadata_t structure.  This has to be done before the
+     * Touchstone 1 normalization below replaces the input by a copy
+     * in s, t or u parameters.
+     */
+    {
+	bool changed = false;
+
+	for (int i = 0; i < vdip->vdi_format_count; ++i) {
+	    vnadata_format_descriptor_t *vfdp = &vdip->vdi_format_vector[i];
+
+	    if (vfdp->vfd_parameter == VPT_UNDEF) {
+		vfdp->vfd_parameter = type;
+		changed = true;
+	    }
+	}
+	if (changed) {
+	    if (_vnadata_update_format_string(vdip) == -1) {
+		goto out;
+	    }
+	}
+    }
+
+    /*
      * If touchstone 1, normalize all system impedances to 1.
      */
     if (vdip->vdi_filetype == VNADATA_FILETYPE_TOUCHSTONE1 &&
@@ -1114,29 +1139,6 @@ static int vnadata_save_common(vnadata_t *vdp, FILE *fp, const char *filename,
 	if (vfdp->vfd_parameter != VPT_UNDEF) {
 	    if (convert_input(function, vdip, conversions,
 			vfdp->vfd_parameter) == -1) {
-		goto out;
-	    }
-	}
-    }
-
-    /*
-     * Go through the format vector and fix up any instances of "ri",
-     * "ma" and "db" without parameter types, taking the parameter type
-     * from the vnadata_t structure.
-     */
-    {
-	bool changed = false;
-
-	for (int i = 0; i < vdip->vdi_format_count; ++i) {
-	    vnadata_format_descriptor_t *vfdp = &vdip->vdi_format_vector[i];
-
-	    if (vfdp->vfd_parameter == VPT_UNDEF) {
-		vfdp->vfd_parameter = type;
-		changed = true;
-	    }
-	}
-	if (changed) {
-	    if (_vnadata_update_format_string(vdip) == -1) {
 		goto out;
 	    }
 	}
